@@ -447,17 +447,21 @@ pub fn patch(
                 .enumerate()
                 .partition(|&(idx, _)| is_alpha_source(idx));
         for (idx, blending_info) in others.into_iter().chain(alpha_sources) {
-            let base_grid_region = base_grid.regions_and_shifts()[idx].0;
-            let ref_grid_region = patch_ref_grid.regions_and_shifts()[idx].0;
+            // Patches are applied before the final upsampling of the frame: positions are in the
+            // coordinates of the (possibly downsampled) buffers, not of the upsampled regions.
+            let (base_region, base_shift) = base_grid.regions_and_shifts()[idx];
+            let base_grid_region = base_region.downsample_with_shift(base_shift);
+            let (ref_region, ref_shift) = patch_ref_grid.regions_and_shifts()[idx];
+            let ref_grid_region = ref_region.downsample_with_shift(ref_shift);
 
             // The alpha channel may cover a different region than this channel (e.g. when it is
             // upsampled separately); blend only where both are available.
             let base_alpha_region = (blending_info.mode.use_alpha()
                 && blending_info.alpha_channel as usize + color_channels != idx)
                 .then(|| {
-                    base_grid.regions_and_shifts()
-                        [blending_info.alpha_channel as usize + color_channels]
-                        .0
+                    let (region, shift) = base_grid.regions_and_shifts()
+                        [blending_info.alpha_channel as usize + color_channels];
+                    region.downsample_with_shift(shift)
                 });
 
             let target_patch_region = base_grid_region
